@@ -345,6 +345,70 @@ fn check_g(seed: u64, idx: u64, rep: &mut Report) {
     let Ok(base_mods) = proj::project(generated) else { return };
     rep.nontrivial.insert(hash_of(&set));
     conservation(&base, Some(&base_mods), Some(&set), &origin, &vk, rep);
+    // ---- delivery: the same sources, in the same order, handed over through other chains of the builder API (literals,
+    // single paths, lists of paths, output mode set before / between / after). Nothing may get lost on the way: the parsed
+    // inventory and the bindings must be those of the all-literals chain.
+    if idx % 2 == 0 {
+        let srcs = set.render_each();
+        let lit = comp::rasn(&srcs, &cfg);
+        rep.evaluations += 1;
+        for trial in 0..2u64 {
+            let mut rng = Rng::for_case(seed, 1010 + trial, idx);
+            let mut plan = vec![];
+            let mut i = 0;
+            while i < srcs.len() {
+                match rng.below(4) {
+                    0 => {
+                        plan.push(comp::Step::Literal(i));
+                        i += 1;
+                    }
+                    1 => {
+                        plan.push(comp::Step::Path(i));
+                        i += 1;
+                    }
+                    _ => {
+                        let k = 1 + rng.below(3).min(srcs.len() - i - 1);
+                        plan.push(comp::Step::Paths((i..i + k).collect()));
+                        i += k;
+                    }
+                }
+            }
+            if rng.chance(2, 3) {
+                let at = rng.below(plan.len() + 1);
+                plan.insert(at, comp::Step::SetOutput);
+            }
+            let ts = trial == 1 && idx % 4 == 0;
+            let reference = if ts { comp::ts(&srcs) } else { comp::rasn(&srcs, &cfg) };
+            let run = comp::delivered(&srcs, &cfg, &plan, ts);
+            rep.evaluations += 1;
+            rep.count("delivery_chains_compared", 1);
+            let shape: Vec<&str> = plan
+                .iter()
+                .map(|s| match s {
+                    comp::Step::Literal(_) => "literal",
+                    comp::Step::Path(_) => "path",
+                    comp::Step::Paths(_) => "paths",
+                    comp::Step::SetOutput => "output",
+                })
+                .collect();
+            rep.note("delivery_chain_shapes", shape.join(">"));
+            let inv = |r: &comp::Run| inventory(&r.events).lexed.len();
+            let same = match (&reference.out, &run.out) {
+                (comp::Outcome::Ok { generated: a, warnings: wa }, comp::Outcome::Ok { generated: b, warnings: wb }) => a == b && wa.len() == wb.len(),
+                (a, b) => a.status() == b.status(),
+            };
+            if !same || inv(&reference) != inv(&run) {
+                let lost = inv(&run) < inv(&reference);
+                // the step after which something differs is part of the signature: the pair (previous step kind, this step kind)
+                rep.violations.push(Violation {
+                    sig: format!("c10|delivery|{}|{}", if lost { "definitions-never-parsed" } else { "result-differs" }, if ts { "typescript" } else { "rasn" }),
+                    what: format!("chain {} yields {} ({} parsed definitions), the all-literals chain {} ({} parsed definitions) [{origin}]", shape.join(">"), run.out.brief(), inv(&run), reference.out.brief(), inv(&reference)),
+                    replay: json!({"origin": origin, "plan": format!("{plan:?}"), "sources": srcs}),
+                });
+            }
+        }
+        let _ = lit;
+    }
     // ---- definitions the generator never spells: two names that mangle to the same Rust identifier (types and values),
     // and a value governed by a fixed-type class field; every one of them must still be emitted or warned about
     if idx % 3 == 0 {
@@ -484,9 +548,9 @@ fn check_g(seed: u64, idx: u64, rep: &mut Report) {
 pub fn run(ctx: &Ctx) -> Report {
     let mut rep = Report::new(
         "exploration",
-        "inputs: grammar-G module sets (1..4 modules, 1..12 assignments each incl. value assignments of every generated form) and the 892 real-world modules. Conservation per Ok compilation over the hook log: every parsed top-level assignment (H1) is emitted with tokens (H5, and for generated inputs present under its own name in the syn projection), or produced a warning (H5 Err outcome / named by a linker warning), or is of a kind documented as silent (class, object, object set, parameterized template); the parsed inventory must equal the generator's inventory. Locality: 3 fault trials per input replace 1..3 assignments by parseable-but-unsupported definitions {REAL, VideotexString, inverted range, REAL value, MACRO, TIME}; every definition that does not depend (model reference graph incl. DEFAULT value references) on a replaced one must keep byte-identical token-normalised items. Non-trivial = Ok compilation with its hook log judged; distinct by model hash / corpus file.",
+        "inputs: grammar-G module sets (1..4 modules, 1..12 assignments each incl. value assignments of every generated form) and the 892 real-world modules. Conservation per Ok compilation over the hook log: every parsed top-level assignment (H1) is emitted with tokens (H5, and for generated inputs present under its own name in the syn projection), or produced a warning (H5 Err outcome / named by a linker warning), or is of a kind documented as silent (class, object, object set, parameterized template); the parsed inventory must equal the generator's inventory. Delivery: for every second input the modules are also handed over, in the same order, through two random chains of the builder API (add_asn_literal / add_asn_by_path / add_asn_sources_by_path in any mixture, set_output_mode(NoOutput) before, between or after; both backends) and the parsed inventory and the bindings must equal those of the all-literals chain. Locality: 3 fault trials per input replace 1..3 assignments by parseable-but-unsupported definitions {REAL, VideotexString, inverted range, REAL value, MACRO, TIME}; every definition that does not depend (model reference graph incl. DEFAULT value references) on a replaced one must keep byte-identical token-normalised items. Non-trivial = Ok compilation with its hook log judged; distinct by model hash / corpus file.",
     );
-    rep.must_observe = vec!["hook_events[Lexed]".into(), "hook_events[TldOutcome]".into(), "independent_definitions_compared".into(), "definitions[warned]".into()];
+    rep.must_observe = vec!["hook_events[Lexed]".into(), "hook_events[TldOutcome]".into(), "independent_definitions_compared".into(), "definitions[warned]".into(), "delivery_chains_compared".into()];
     rep.assumptions = vec!["hooks H1/H2/H5 (feature verif-hooks) report faithfully".into(), "items are attributed to definitions by the unique serial names".into()];
     if let Some(path) = &ctx.replay {
         let doc: serde_json::Value = serde_json::from_str(&std::fs::read_to_string(path).expect("replay")).expect("json");
